@@ -335,9 +335,46 @@ fn gen_float_text(d: &mut D) -> String {
     }
 }
 
+/// Decimal digits at, just above or just below the midpoint between two adjacent f32 (f64) values,
+/// written out exactly: the inputs on which a detour through another float type (or any shortcut in
+/// digit handling) rounds twice. tie = (2m+1) * 2^-k = (2m+1) * 5^k / 10^k, in u128 arithmetic.
+fn near_tie_text(d: &mut D, single: bool) -> (String, &'static str) {
+    let mbits = if single { 24 } else { 53 };
+    let m: u128 = (1u128 << (mbits - 1)) | ((d.u64() as u128) & ((1u128 << (mbits - 1)) - 1));
+    let odd = 2 * m + 1;
+    let (n, k): (u128, usize) = if d.ratio(1, 4) {
+        (odd << d.range(0, if single { 60 } else { 40 }), 0)
+    } else {
+        let k = d.range(0, if single { 40 } else { 30 });
+        (odd * 5u128.pow(k as u32), k)
+    };
+    let (n, tail, class) = match d.below(3) {
+        0 => (n, "0", "float:tie-exact"),
+        1 => (n, "00000000000000000000000000000001", "float:tie-above"),
+        _ => (n - 1, "99999999999999999999999999999999", "float:tie-below"),
+    };
+    let mut digits = n.to_string();
+    while digits.len() < k + 1 {
+        digits.insert(0, '0');
+    }
+    let cut = digits.len() - k;
+    (format!("{}.{}{}", &digits[..cut], &digits[cut..], tail), class)
+}
+
 pub fn gen_misc(d: &mut D) -> MiscCase {
     let esc = |s: &str| format!("{:?}", s);
-    match d.below(10) {
+    match d.below(11) {
+        10 => {
+            let target = *d.pick(&["f32", "f32", "f64"]);
+            let (t, class) = near_tie_text(d, target == "f32");
+            let want = if target == "f32" { std_f32(&t) } else { std_f64(&t) };
+            let quoted = d.ratio(1, 3);
+            let mut text = t.clone();
+            if !quoted && d.ratio(1, 4) {
+                text.push_str(*d.pick(&["f32", "f64"]));
+            }
+            MiscCase { src: if quoted { format!("v = {}", esc(&t)) } else { format!("v = {}", text) }, kind: class.into(), expect: want, lenient_alt: None, target: target.into() }
+        }
         // floats, quoted: the string as it stands
         0 | 1 => {
             let t = gen_float_text(d);
@@ -477,7 +514,7 @@ pub fn check_misc(ctx: &Ctx, c: &MiscCase) -> Result<(), Fail> {
             ctx.nontrivial(c);
         }
     }
-    if c.kind == "float-literal" || c.kind == "float-quoted" {
+    if c.kind == "float-literal" || c.kind == "float-quoted" || c.kind.starts_with("float:tie") {
         ctx.nontrivial(c);
     }
     Ok(())
@@ -529,7 +566,7 @@ pub fn run(args: &Args) -> bool {
     }
     if want("misc") {
         let ctx = Ctx::new("C11", "misc", vmodel::ev::mix_seed(args.seed, "C11", "misc", args.shard), args);
-        ctx.set_rule("floats (quoted: any decimal/exponent/special string vs str::parse, bit-exact; unquoted float literals with `_`/suffix; int literal into float may only fail or be exact), bool (word, bool and string literals), char (char literal, one-character string), String/PathBuf (cooked and raw spellings of generated contents), wrong literal kinds and meta forms -> spanned error. Non-trivial: expected error, or any float case");
+        ctx.set_rule("floats (quoted: any decimal/exponent/special string vs str::parse, bit-exact; unquoted float literals with `_`/suffix; decimal expansions exactly at / a hair above / a hair below the midpoint of two adjacent f32 or f64 values, quoted and unquoted; int literal into float may only fail or be exact), bool (word, bool and string literals), char (char literal, one-character string), String/PathBuf (cooked and raw spellings of generated contents), wrong literal kinds and meta forms -> spanned error. Non-trivial: expected error, or any float case");
         if let Some((_, case)) = &replay {
             let b: Vec<u8> = serde_json::from_value(case.clone()).expect("bad replay");
             ok &= run_list(&ctx, vec![b], check_misc_bytes);
